@@ -1,4 +1,6 @@
 """Rules about the transforms' construction of output (shared by C01, C02, C03, C08)."""
+import re
+
 from . import hir, gate, fanout
 from .engine import AnchorMissing
 from .prov import Prov, origin_str, return_exprs
@@ -1328,3 +1330,85 @@ def rule_ts_flags(check):
                 else:
                     check.bad(R, key, hir.loc(fl["e"]), "%s builds a %s with %s = %s: TypeScript-only syntax in the output" % (f.name, p_.split("::")[-1], fl["name"], hir.describe(e)[:60]))
     check.floor(R, "TypeScript-only fields of constructed nodes", n_fields, 8)
+
+
+def rule_node_rebuild(check):
+    """NODE-REBUILD (C01, C08): a node that replaces an original of the same type keeps every field"""
+    from .prov import Prov
+
+    R = "NODE-REBUILD"
+    check.rule(R, "where a transform builds an AST node of type T while an original node of type T is in scope (a parameter or a matched binding) the new node replaces the original: every field of T is either listed in the literal or taken from the original through the struct base - a base such as `..Default::default()` silently resets the fields that are not listed (is_async, is_generator, type arguments, optional flags ...)")
+    prog = check.prog
+    pv = Prov(prog)
+    n = 0
+    for f in prog.user_fns:
+        for s in hir.walk(f.body):
+            if s.get("k") != "Struct" or not (s["res"].get("krate") or "").startswith("swc_ecma_ast"):
+                continue
+            ty = s["res"]["path"]
+            originals = [p_ for p_ in f.rec.get("params", []) if re.search(r"(^|[^A-Za-z_:])%s($|[^A-Za-z_])" % re.escape(ty), p_.get("ty") or "") and "[" not in (p_.get("ty") or "")]
+            if not originals:
+                continue
+            n += 1
+            key = "%s/%s/%s" % (R, f.name, ty.split("::")[-1])
+            base = s.get("base")
+            adt = prog.adts.get(ty)
+            listed = [x["name"] for x in s["fields"]]
+            if base is None:
+                check.ok(R, key, hir.loc(s), "every field of %s is listed (%s)" % (ty.split("::")[-1], ", ".join(listed)))
+                continue
+            os_ = pv.origins(f, base)
+            from_orig = bool(os_) and all(r[0] == "param" for r, _ in os_)
+            all_fields = [x["name"] for x in adt["variants"][0]["fields"]] if adt else []
+            dropped = [x for x in all_fields if x not in listed]
+            check.expect(from_orig, R, key, hir.loc(s), "the fields not listed are taken from the original node", "the new %s replaces the original one but takes %s from `%s`, not from the original: these fields of the input are lost" % (ty.split("::")[-1], ", ".join(dropped) or "the unlisted fields", re.sub(r"#\\d+", "", hir.describe(base))[:40]))
+    check.floor(R, "AST nodes rebuilt next to their original", n, 5)
+
+
+def deep_origins(prog, pv, f, e, depth=0, seen=None):
+    """origins of e with parameters of local helpers followed to the arguments of their call sites"""
+    seen = seen or set()
+    out = []
+    for (r, p) in pv.origins(f, e):
+        if r[0] == "param" and depth < 5:
+            g = prog.by_def.get(r[1])
+            sites = [(cf, n) for cf, n in (prog.sites_calling(g) if g else []) if hir.is_call(n)]
+            if sites and (r[1], r[2]) not in seen:
+                seen2 = seen | {(r[1], r[2])}
+                for cf, n in sites:
+                    a = hir.call_args(n)
+                    if r[2] < len(a):
+                        for (r2, p2) in deep_origins(prog, pv, cf, a[r[2]], depth + 1, seen2):
+                            out.append((r2, tuple(p2) + tuple(p)))
+                continue
+        out.append((r, p))
+    return out
+
+
+def rule_method_name_kept(check):
+    """METHOD-NAME-KEPT (C01, C02): the property read from the receiver temporary is the one the input reads"""
+    R = "METHOD-NAME-KEPT"
+    check.rule(R, "where a transform emits a member access whose property name comes from the input (`<temporary>.<method>` of a method hook), that name is the very identifier of the input's member expression on every path - never one made up on the way (a normalised, resolved or renamed method): otherwise erasing the hook does not give back the input and a receiver that only defines the written name fails")
+    prog = check.prog
+    pv = Prov(prog)
+    n = 0
+    for f in xform_fns(prog):
+        for s in hir.walk(f.body):
+            if not (s.get("k") == "Struct" and (s["res"].get("path") or "").endswith("::MemberExpr")):
+                continue
+            for fl in s["fields"]:
+                if fl["name"] != "prop":
+                    continue
+                e = hir.peel(fl["e"])
+                if not (e.get("k") == "Call" and (hir.peel(e["f"]).get("res", {}).get("ctor_path") or "").endswith("MemberProp::Ident")):
+                    continue
+                os_ = deep_origins(prog, pv, f, e["args"][0])
+                from_input = [o for o in os_ if o[0][0] == "param" and any(str(x).split(".")[-1] in ("prop", "sym") or str(x) == "prop" for x in o[1])]
+                if not from_input:
+                    continue  # a constant name (`call`, `apply`, the global hook object ...)
+                n += 1
+                # a constructed value with a projection left over is a node Prov could not look into (or an
+                # infeasible projection such as None.1): unknown, not "made up"
+                made_up = [o for o in os_ if (o[0][0] in ("ctor", "lit") and not o[1]) or (o[0][0] == "call" and not (o[0][1].split("::")[-1] in ("new", "with_capacity", "default") and ("<T>" in o[0][1] or "Vec" in o[0][1])))]
+                check.expect(not made_up, R, "%s/%s" % (R, f.name), hir.loc(s), "the emitted property is the identifier of the input's member expression", "the property of the emitted member access can be %s instead of the name written in the input" % sorted({origin_str(o)[:60] for o in made_up}))
+    check.floor(R, "emitted member accesses named after the input", n, 1)
